@@ -265,7 +265,12 @@ def replay_file(path, out=sys.stdout):
     with open(path) as f:
         data = json.load(f)
     check = load_check(data['property'])
-    vs = check.replay(data['case'], verbose=True)
+    from . import world as W
+    try:
+        vs = check.replay(data['case'], verbose=True)
+    except W.HarnessError as error:
+        out.write('replay of %s cannot be followed on this tree (recorded on a different one?): %s\n' % (path, error))
+        return 2
     if vs:
         for v in vs:
             out.write('VIOLATION property=%s replay=%s\n  signature: %s\n  %s\n' % (data['property'], path, v.signature, v.message))
